@@ -149,6 +149,7 @@ def c01_runs(tier):
                 for part in range(np_):
                     runs.append(("san", ["--mode", mode, "--mtu", str(m), "--wifi", str(wifi), "--fill", str(fill), "--part", str(part), "--nparts", str(np_)]))
         runs.append(("san", ["--mode", "esp32", "--mtu", str(m)]))
+    runs.append(("cov", ["--mode", "cov", "--mtu", "576"]))
     runs.append(("daemon", ["--mode", "daemon", "--mtu", "1500"]))
     runs.append(("daemon", ["--mode", "daemon", "--mtu", "576", "--fill", "255"]))
     if th:
@@ -219,6 +220,8 @@ PROPS = {
         "engine": "E4",
         "builds": {"san": {"flavour": "san", "sources": SANMC + ["checks/c01.c"], "repo_extra": ["os/esp32/daemon/lltd_esp32.c"],
                            "defs": ["-I", REPO + "/os/esp32/daemon"], "modes": ["linux", "darwin", "esp32"]},
+                   "cov": {"flavour": "tsanabi", "sources": ["mc/world.c", "mc/wire.c", "mc/report.c", "mc/sigma.c", "mc/darwin.c", "mc/tsan_hooks.c", "checks/cov.c"],
+                           "repo_extra": ["os/esp32/daemon/lltd_esp32.c"], "defs": ["-I", REPO + "/os/esp32/daemon"], "modes": ["cov"]},
                    "daemon": {"flavour": "san", "sources": ["mc/report.c", "mc/forkrun.c", "mc/wire.c", "checks/c01_daemon.c"],
                               "repo_extra": ["os/linux/lltd_port.c", "os/linux/daemon/linux-ops.c"],
                               "repo_extra_flags": ["-I", REPO + "/os/linux", "-DLLTD_BACKEND_EMBEDDED", "-DLLTD_USE_CONSOLE", "-D", "LINUX"],
